@@ -8,6 +8,7 @@ DECLS = r'''
 #[derive(Debug, Clone, PartialEq)] struct Leaf { n: i32, s: String, flag: bool }
 #[derive(Debug, Clone, PartialEq)] enum Kind { Unit, Other, Tup(i32, String), Rec { a: i32, b: String } }
 #[derive(Debug, Clone, PartialEq)] struct Mid { leaf: Leaf, kind: Kind, opt: Option<i32>, bx: Box<i32>, xs: Vec<i32>, pair: (i32, String), m: BTreeMap<String, i32>, names: Vec<String>, bb: Box<Box<i32>>, ol: Option<Leaf> }
+#[derive(Debug, Clone, PartialEq)] struct FL { x: f64, y: f64 }
 #[derive(Debug, Clone, PartialEq)] struct Top { mid: Mid, mids: Vec<Mid>, res: Result<i32, String>, t3: (i32, Kind, Leaf), mm: BTreeMap<String, Leaf>, count: i32 }
 '''
 
@@ -378,6 +379,11 @@ class Gen:
         if not hit:
             missing = [k for k in KEYS if k not in pv]
             if missing and rng.random() < 0.6:
+                if chosen and rng.random() < 0.5:
+                    # a value that (most likely) fails BEFORE the missing key: two entries, the later one reported on the
+                    # map's own `#{`, i.e. above the earlier one when the pattern is written over several lines
+                    j = rng.randrange(len(chosen))
+                    items[j] = "\"%s\": %s" % (chosen[j], self.pat_any(t.t, depth))
                 items.append("\"%s\": %s" % (rng.choice(missing), self.pat_any(t.t, depth)))
             elif not rest and chosen:
                 items.pop()                                     # wrong entry count
@@ -559,10 +565,96 @@ def set_stress_case(rng):
     return {"type": ty, "value_rust": vr, "value_model": vm, "pattern": pat, "kinds": {"set-stress": 1}}
 
 
+def map_order_case(rng):
+    """a map pattern whose report has entries out of source order: value patterns that fail, then keys that are missing (a
+    missing key is reported on the map's own `#{`, written above the values), possibly a wrong entry count as well.  Always
+    laid out over several lines (semstage.relayout), alone or beside failing siblings below it."""
+    present = rng.sample(["a", "b", "c", "d"], rng.randint(1, 4))
+    vals = {k: rng.randint(0, 9) for k in present}
+    items = []
+    for k in present:
+        r = rng.random()
+        if r < 0.45:
+            items.append('"%s": %d' % (k, vals[k] + rng.randint(1, 3)))          # fails
+        elif r < 0.6:
+            items.append('"%s": > %d' % (k, vals[k] + 5))                        # fails
+        elif r < 0.8:
+            items.append('"%s": %d' % (k, vals[k]))
+        else:
+            items.append('"%s": _' % k)
+    for k in rng.sample(["x", "y", "z"], rng.randint(1, 2)):
+        items.insert(rng.randint(1, len(items)) if rng.random() < 0.3 else len(items), '"%s": %s' % (k, rng.choice(["_", "1", "> 0"])))
+    rest = rng.random() < 0.6
+    pat = "#{ %s }" % ", ".join(items + ([".."] if rest else []))
+    vr = "[%s].into_iter().collect::<HashMap<String, i32>>()" % ", ".join('("%s".to_string(), %d)' % (k, vals[k]) for k in present)
+    vm = "(map %s)" % " ".join('((str %s) (int %d))' % (hx(k), vals[k]) for k in present) if present else "(map)"
+    ty = "HashMap<String, i32>"
+    wrap = rng.random()
+    if wrap < 0.35:
+        pat, vr, vm, ty = "(%s, %d)" % (pat, 7 if rng.random() < 0.5 else 8), "(%s, 7)" % vr, "(tuple %s (int 7))" % vm, "(HashMap<String, i32>, i32)"
+    elif wrap < 0.55:
+        pat, vr, vm, ty = "Some(%s)" % pat, "Some(%s)" % vr, "(variant %s %s)" % (hx("Some"), vm), "Option<HashMap<String, i32>>"
+    return {"type": ty, "value_rust": vr, "value_model": vm, "pattern": pat, "kinds": {"map-order": 1}, "multiline": True}
+
+
+def float_case(rng):
+    """comparison "by ordering" on a PARTIAL order: f64 values, a third of them NaN (incomparable with everything: every
+    comparison but `!=` is false, no range contains it, no literal equals it), at the root and inside struct / Option / tuple /
+    Vec; operands are float literals with integral values (what the model's literal reader covers)"""
+    def val():
+        if rng.random() < 0.35:
+            return ("f64::NAN", "(nan)", None)
+        z = rng.randint(-3, 9)
+        return ("%d.0" % z if z >= 0 else "(%d.0)" % z, "(float %d)" % z, z)
+
+    def lit(z):
+        return "%d.0" % z
+
+    def leaf(pz):
+        k = (pz if pz is not None else rng.randint(-3, 9)) + rng.choice([-1, 0, 0, 1])
+        r = rng.random()
+        if r < 0.55:
+            return "%s %s" % (rng.choice(["==", "!=", "<", "<=", ">", ">=", ">=", "<="]), lit(k))
+        if r < 0.65:
+            return lit(k)
+        lo, hi = k - rng.randint(0, 2), k + rng.randint(0, 2)
+        return rng.choice(["%s..=%s" % (lit(lo), lit(hi)), "%s..%s" % (lit(lo), lit(hi + 1)), "..=%s" % lit(hi), "%s.." % lit(lo), "..%s" % lit(hi)])
+    shape = rng.choice(["root", "root", "struct", "struct", "opt", "tuple", "vec"])
+    if shape == "root":
+        vr, vm, pz = val()
+        return {"type": "f64", "value_rust": vr, "value_model": vm, "pattern": leaf(pz), "kinds": {"float:root": 1}}
+    if shape == "struct":
+        (xr, xm, xz), (yr, ym, yz) = val(), val()
+        pat = rng.choice(["FL { x: %s, y: %s }", "FL { y: %s, x: %s }", "FL { x: %s, .. }", "_ { x: %s, y: %s, .. }"])
+        n = pat.count("%s")
+        args = (leaf(xz), leaf(yz)) if pat.index("x:") < (pat.index("y:") if "y:" in pat else 10 ** 6) else (leaf(yz), leaf(xz))
+        pat = pat % args[:n]
+        return {"type": "FL", "value_rust": "FL { x: %s, y: %s }" % (xr, yr),
+                "value_model": "(struct %s (%s %s) (%s %s))" % (hx("FL"), hx("x"), xm, hx("y"), ym), "pattern": pat, "kinds": {"float:struct": 1}}
+    if shape == "opt":
+        vr, vm, pz = val()
+        return {"type": "Option<f64>", "value_rust": "Some(%s)" % vr, "value_model": "(variant %s %s)" % (hx("Some"), vm),
+                "pattern": "Some(%s)" % leaf(pz), "kinds": {"float:option": 1}}
+    if shape == "tuple":
+        vr, vm, pz = val()
+        return {"type": "(f64, i32)", "value_rust": "(%s, 7)" % vr, "value_model": "(tuple %s (int 7))" % vm,
+                "pattern": "(%s, %d)" % (leaf(pz), rng.choice([7, 7, 8])), "kinds": {"float:tuple": 1}}
+    vs = [val() for _ in range(rng.randint(1, 3))]
+    pats = [leaf(v[2]) for v in vs]
+    if rng.random() < 0.4:
+        pats = pats[:1] + [".."]
+    return {"type": "Vec<f64>", "value_rust": "vec![%s]" % ", ".join(v[0] for v in vs), "value_model": "(vec %s)" % " ".join(v[1] for v in vs),
+            "pattern": "[%s]" % ", ".join(pats), "kinds": {"float:vec": 1}}
+
+
 def gen_case(rng, hit=None, closures=True):
     """one triple: returns dict(type, value_rust, value_model, pattern, kinds)"""
     if rng.random() < 0.12:
         return set_stress_case(rng)
+    if rng.random() < 0.06:
+        return map_order_case(rng)
+    if rng.random() < 0.07:
+        return float_case(rng)
     t = rng.choice(ROOTS)
     vr, vm, pv = gen_value(rng, t)
     g = Gen(rng, hit if hit is not None else rng.choice([1.0, 0.9, 0.75, 0.6, 0.5]), closures)
